@@ -232,7 +232,12 @@ func (rt *Runtime) InBubble(offset time.Duration, f func()) (leaked bool) {
 
 // SimNow: the simulated instant at which every non-C07 build runs (after the
 // harness keys' creation time, so key-file signing accepts the keys).
-var SimNow = time.Date(2033, 5, 6, 7, 8, 9, 0, time.UTC).Sub(FakeEpoch)
+//
+// It is placed one hour after the youngest harness key was created and
+// therefore before the real clock of any later run: signatures made at this
+// instant are neither older than their key nor in the future for a verifier
+// that uses the real clock (gpgv), so no time conflict has to be ignored.
+var SimNow = time.Date(2026, 10, 2, 7, 30, 0, 0, time.UTC).Sub(FakeEpoch)
 
 func init() {
 	deprecation.Noticer = nullNoticer{}
